@@ -205,10 +205,18 @@ fn leg_ids(out: &str, tier: &str, summary: &mut serde_json::Map<String, Value>, 
         files.extend(cairo_files(Path::new(d)));
     }
     let mut rng = Rng::from_env();
-    let (max_files, max_bytes, max_nodes) = if tier == "thorough" { (140, 60_000, 60_000) } else { (36, 16_000, 16_000) };
+    // Coq reads case files at a few KB/s: the budget is in nodes (about 50 bytes of Coq text each)
+    let (max_files, max_bytes, max_nodes, budget) =
+        if tier == "thorough" { (140, 40_000, 8_000, 110_000usize) } else { (36, 9_000, 2_500, 11_000usize) };
     // examples + corpus always; corelib files sampled by seed
     let (fixed, mut pool): (Vec<_>, Vec<_>) = files.into_iter().partition(|p| !p.starts_with("/repo/corelib"));
     let mut chosen = fixed;
+    // a seeded rotation of the fixed part, so that different seeds read different example files first
+    if !chosen.is_empty() {
+        let r = rng.below(chosen.len() as u64) as usize;
+        chosen.rotate_left(r);
+    }
+    chosen.retain(|p| std::fs::metadata(p).map(|m| m.len() as usize <= max_bytes).unwrap_or(false));
     chosen.truncate(max_files / 2);
     while chosen.len() < max_files && !pool.is_empty() {
         let i = rng.below(pool.len() as u64) as usize;
@@ -242,6 +250,9 @@ fn leg_ids(out: &str, tier: &str, summary: &mut serde_json::Map<String, Value>, 
         *it = Interner::default();
     };
     for p in &chosen {
+        if n_nodes >= budget {
+            break;
+        }
         let file = FileLongId::OnDisk(p.clone()).intern(db);
         let Ok(root) = db.file_syntax(file) else {
             skipped += 1;
@@ -271,7 +282,7 @@ fn leg_ids(out: &str, tier: &str, summary: &mut serde_json::Map<String, Value>, 
         }
         cur.push(format!("mk_case {} ({})\n  {}", n_files, d.tree, coq_nodes(&d, false)));
         cur_nodes += d.nodes.len();
-        if cur_nodes > 25_000 {
+        if cur_nodes > 1_500 {
             flush(&mut cur, &mut it, &mut shard);
             cur_nodes = 0;
         }
@@ -743,6 +754,7 @@ struct Stats {
     steps_with_diagnostics: usize,
     steps_with_sierra: usize,
     distinct_states: std::collections::HashSet<u64>,
+    outputs: std::collections::HashSet<u64>,
     panics_both: usize,
     fresh_ms: u128,
     incr_ms: u128,
@@ -758,6 +770,9 @@ struct Failure {
 
 fn setup(work: &Path, proj: &Project) -> (PathBuf, Vec<FileState>) {
     let _ = std::fs::remove_dir_all(work);
+    std::fs::create_dir_all(work).unwrap();
+    // the database identifies files by path: use one canonical spelling everywhere
+    let work = &work.canonicalize().unwrap();
     let root = if proj.src.is_dir() {
         copy_dir(&proj.src, work).expect("copy project");
         work.to_path_buf()
@@ -776,6 +791,26 @@ fn setup(work: &Path, proj: &Project) -> (PathBuf, Vec<FileState>) {
         })
         .collect();
     (root, files)
+}
+
+/// The on-disk files the database reads for the given crates (paths as the database spells them).
+fn project_files(db: &RootDatabase, inputs: &[CrateInput]) -> Vec<PathBuf> {
+    use cairo_lang_defs::db::DefsGroup;
+    let mut res = vec![];
+    for c in CrateInput::into_crate_ids(db, inputs.to_vec()) {
+        for m in db.crate_modules(c) {
+            if let Ok(fs) = db.module_files(*m) {
+                for f in fs {
+                    if let FileLongId::OnDisk(p) = f.long(db) {
+                        if !res.contains(p) {
+                            res.push(p.clone());
+                        }
+                    }
+                }
+            }
+        }
+    }
+    res
 }
 
 fn open_db(root: &Path) -> (RootDatabase, Vec<CrateInput>) {
@@ -797,6 +832,10 @@ fn run_history(
 ) -> (Vec<Step>, Option<Failure>) {
     let (root, mut files) = setup(work, proj);
     let (mut db, inputs) = open_db(&root);
+    // only files the database really reads take part (and their paths must be the database's)
+    let known = project_files(&db, &inputs);
+    files.retain(|f| known.contains(&f.path));
+    assert!(!files.is_empty(), "no project file of {} is known to the database: {:?}", proj.name, known);
     // warm the live database on the initial contents
     let d0 = diagnostics_text(&db, &inputs);
     let s0 = sierra_text(&db, &inputs);
@@ -893,6 +932,7 @@ fn run_history(
                 fs.lines().count()
             );
         }
+        stats.outputs.insert(fnv(&fd) ^ fnv(&fs).rotate_left(17));
         if want_diag {
             stats.diag_compared += 1;
             if fd.lines().count() > 1 {
@@ -924,7 +964,7 @@ fn run_history(
 fn leg_reid(out: &str, tier: &str, summary: &mut serde_json::Map<String, Value>, samples: &mut Vec<String>) {
     let mut rng = Rng::from_env();
     rng.next();
-    let n_cases = if tier == "thorough" { 60 } else { 16 };
+    let n_cases = if tier == "thorough" { 60 } else { 10 };
     let srcs: Vec<PathBuf> = ["/repo/examples", "/verif/corpus/C13"].iter().flat_map(|d| cairo_files(Path::new(d))).collect();
     let work = PathBuf::from(format!("{out}/../work/reid"));
     let _ = std::fs::remove_dir_all(&work);
@@ -936,7 +976,7 @@ fn leg_reid(out: &str, tier: &str, summary: &mut serde_json::Map<String, Value>,
     for c in 0..n_cases {
         let src = &srcs[g.rng.below(srcs.len() as u64) as usize];
         let text = std::fs::read_to_string(src).unwrap();
-        if text.len() > 12_000 {
+        if text.len() > if tier == "thorough" { 12_000 } else { 2_500 } {
             continue;
         }
         let path = work.join(format!("f{c}.cairo"));
@@ -995,7 +1035,7 @@ fn leg_reid(out: &str, tier: &str, summary: &mut serde_json::Map<String, Value>,
             coq_nodes(&d2, true)
         ));
     }
-    let per = 4;
+    let per = 2;
     for (si, chunk) in cases.chunks(per).enumerate() {
         let mut s = String::from(HEADER);
         writeln!(s, "Definition kr_tab : list (N * (nat * nat)) := {}.", kinds_table(&it)).unwrap();
@@ -1050,7 +1090,7 @@ fn main() {
     if legs.contains("oracle") {
         let t1 = Instant::now();
         let seed = std::env::var("VERIF_SEED").ok().and_then(|s| s.parse::<u64>().ok()).unwrap_or(1);
-        let (n_hist, n_steps) = if tier == "thorough" { (48usize, 30usize) } else { (12, 8) };
+        let (n_hist, n_steps) = if tier == "thorough" { (60usize, 30usize) } else { (18, 8) };
         let n_hist = std::env::var("H13_HISTORIES").ok().and_then(|s| s.parse().ok()).unwrap_or(n_hist);
         let n_steps = std::env::var("H13_STEPS").ok().and_then(|s| s.parse().ok()).unwrap_or(n_steps);
         let threads = std::env::var("H13_THREADS").ok().and_then(|s| s.parse().ok()).unwrap_or(if tier == "thorough" { 8usize } else { 12 });
@@ -1072,7 +1112,7 @@ fn main() {
                         let generator = Gen { rng: &mut rng, counter: 0 };
                         let work = PathBuf::from(format!("{out}/../work/h{h}"));
                         let mut st = Stats::default();
-                        let (steps, fail) = run_history(&work, proj, n_steps, Some(generator), &[], &mut st, false);
+                        let (steps, fail) = run_history(&work, proj, n_steps, Some(generator), &[], &mut st, std::env::var("H13_VERBOSE").is_ok());
                         if h < 3 {
                             let ks: Vec<&str> = steps.iter().map(|s| s.kind.as_str()).collect();
                             all_samples.lock().unwrap().push(format!("oracle: history {h} on `{}`: {}", proj.name, ks.join(" -> ")));
@@ -1095,6 +1135,7 @@ fn main() {
         let stats = all_stats.into_inner().unwrap();
         let mut kinds: std::collections::BTreeMap<String, usize> = Default::default();
         let mut distinct = std::collections::HashSet::new();
+        let mut outputs = std::collections::HashSet::new();
         let (mut steps, mut dc, mut scmp, mut tc, mut wd, mut ws, mut pb, mut fms, mut ims) = (0, 0, 0, 0, 0, 0, 0, 0u128, 0u128);
         for s in &stats {
             steps += s.steps;
@@ -1110,6 +1151,7 @@ fn main() {
                 *kinds.entry(k.split(':').next().unwrap().to_string()).or_insert(0) += v;
             }
             distinct.extend(s.distinct_states.iter().copied());
+            outputs.extend(s.outputs.iter().copied());
         }
         failures = all_fail.into_inner().unwrap();
         samples.extend(all_samples.into_inner().unwrap());
@@ -1123,6 +1165,7 @@ fn main() {
         summary.insert("oracle_steps_with_diagnostics".into(), json!(wd));
         summary.insert("oracle_steps_with_sierra_program".into(), json!(ws));
         summary.insert("oracle_distinct_project_states".into(), json!(distinct.len()));
+        summary.insert("oracle_distinct_outputs".into(), json!(outputs.len()));
         summary.insert("oracle_panic_in_both".into(), json!(pb));
         summary.insert("oracle_fresh_db_ms".into(), json!(fms as u64));
         summary.insert("oracle_live_db_ms".into(), json!(ims as u64));
